@@ -340,6 +340,59 @@ def rule_fields(ctx):
                   "copy of setting '%s' takes its value from %s instead of self.%s" % (f, norm(rhs), f),
                   fi.loc(st))
     ctx.floor(R, 40)
+    copy_preserves(ctx, R)
+
+
+def copy_preserves(ctx, R, only=None):
+    """The first copy validate() makes of a setting hands the caller's value on unchanged: its right-hand
+    side reads no other setting and evaluates (condeval.ev, nothing is run) to the value of `self.<f>`
+    for sample values of every kind a setting takes.  (Later, deliberate narrowing - macNames below
+    TLS 1.2 - is a second assignment and is judged by the rules of the field it narrows.)"""
+    from ..condeval import ev, Unknown
+    cls = ctx.index.cls(HS)
+    val = ctx.index.func(HS + ".validate")
+    n_checked = 0
+    firsts = {}
+    for fi in _closure(ctx, cls, val):
+        if not (fi is val or fi.name.startswith("_copy")):
+            continue
+        for n in own_nodes(fi.node):
+            if isinstance(n, ast.Assign) and len(n.targets) == 1 and \
+                    isinstance(n.targets[0], ast.Attribute) and \
+                    isinstance(n.targets[0].value, ast.Name) and n.targets[0].value.id == "other":
+                f = n.targets[0].attr
+                # the copy proper is the one in a _copy* helper (else the earliest in validate itself)
+                key = (0 if fi.name.startswith("_copy") else 1, n.lineno)
+                if f not in firsts or key < firsts[f][3]:
+                    firsts[f] = (n.value, fi, n, key)
+    for f in sorted(firsts):
+        if only is not None and f not in only:
+            continue
+        rhs, fi, st, _ = firsts[f]
+        if not any(isinstance(x, ast.Attribute) and attr_chain(x) == "self." + f for x in ast.walk(rhs)):
+            continue        # not a copy of the same-named setting (C19.FIELDS judges that)
+        reads = {attr_chain(x) for x in ast.walk(rhs) if isinstance(x, ast.Attribute)
+                 and isinstance(x.value, ast.Name) and x.value.id in ("self", "other")}
+        others = sorted(reads - {"self." + f})
+        bad = None
+        if others:
+            bad = "depends on %s" % ", ".join(others)
+        else:
+            for v in (True, False, None, 7, "x", ("a", "b"), ()):
+                try:
+                    got = ev(rhs, {"self." + f: v, "__index__": ctx.index})
+                except (Unknown, TypeError, AttributeError, KeyError, IndexError) as e:
+                    raise AnalysisError("%s: cannot evaluate the copy `%s`: %s" % (R, norm(st), e))
+                same = got == v or (isinstance(v, tuple) and isinstance(got, (list, tuple)) and list(got) == list(v))
+                if not same:
+                    bad = "turns %r into %r" % (v, got)
+                    break
+        n_checked += 1
+        ctx.check(R, bad is None, fi.qname, st,
+                  "validate() must hand the caller's '%s' on unchanged, but the copy `%s` %s" % (f, norm(st), bad),
+                  fi.loc(st), what="copy of '%s' preserves the caller's value" % f)
+    if n_checked < (1 if only else 40):
+        raise AnalysisError("%s: only %d setting copies found" % (R, n_checked))
 
 
 def _module_const_defs(mod):
